@@ -156,7 +156,6 @@ class ExternalVariableCollector(NodeVisitor):
         self.used -= self.funcnames
 
     def visit_FunctionDef(self, node):
-        self.funcnames.add(node.name)
         if node is self.root:
             # The default values, annotations and decorators of the function
             # are evaluated in the enclosing scope: they are not variables
@@ -171,6 +170,7 @@ class ExternalVariableCollector(NodeVisitor):
                 self.visit(stmt)
             return
         # A nested def binds its name in the enclosing function
+        self.funcnames.add(node.name)
         self.provenance[node.name] = "body"
         self.assigned.add(node.name)
         self.generic_visit(node)
